@@ -21,7 +21,7 @@ EXPLANATION = (
     'the same state; (f) hashing is a side-effect free function of the current '
     'state (no memo); (g) eq\'s container branches compare sizes/key sets '
     'before elements.  Reflexivity/symmetry/transitivity over values are not decided.')
-FLOORS = {'C06.a': 1, 'C06.b': 1, 'C06.c': 1, 'C06.d': 2, 'C06.e': 2, 'C06.f': 2, 'C06.g': 1}
+FLOORS = {'C06.h': 1, 'C06.a': 1, 'C06.b': 1, 'C06.c': 1, 'C06.d': 2, 'C06.e': 2, 'C06.f': 2, 'C06.g': 1}
 FILES = ['pyglove/core/symbolic/base.py', 'pyglove/core/symbolic/object.py',
          'pyglove/core/symbolic/dict.py', 'pyglove/core/symbolic/list.py',
          'pyglove/core/typing/inspect.py']
@@ -50,7 +50,15 @@ def rule_a(ctx):
       raise AnalysisError(f'{cls_fq}.sym_hash has no return')
     agg = rets[0].value
     if cls_fq == S.DICT:
-      ok = (not eq_order_insensitive) or _order_insensitive(agg)
+      def agg_of(r):
+        v = r.value
+        if isinstance(v, ast.Name):      # `h = ...; return h`
+          from sa import dataflow as _D
+          ds = [x for _, x in _D.defs_of(f.node, v.id) if x is not None]
+          return ds
+        return [v]
+      # every return (the hash of an Object's attribute container included)
+      ok = (not eq_order_insensitive) or all(_order_insensitive(a2) for r in rets for a2 in agg_of(r))
       ctx.ob('C06.a', f.fq, ok,
              'because eq treats dicts with the same key set as equal whatever the key order, '
              'the hash aggregates items order-insensitively (frozenset / sorted)', f.loc,
@@ -402,8 +410,50 @@ def rule_g(ctx):
          'sym_eq dispatch is one-sided')
 
 
+def rule_h(ctx):
+  """lt walks containers member by member and decides "the first members that
+  differ": "differ" must be the symbolic eq (objects that do not opt into
+  symbolic comparison, functions, nested containers of them are eq without
+  being ==).  So in lt no `==` / `!=` is applied to member VALUES
+  (left[k] / right[k], loop items of left / right, or locals holding them);
+  comparing keys, lengths, ranks and types is fine."""
+  idx = ctx.index
+  f = idx.func(B + 'lt')
+  prm = A.param_names(f.node)[:2]
+  # locals that hold member values: subscripts of / loop items over the two operands
+  members = set()
+  def is_member_expr(e):
+    if isinstance(e, ast.Subscript) and isinstance(e.value, ast.Name) and e.value.id in prm:
+      return True
+    return isinstance(e, ast.Name) and e.id in members
+  for _ in range(2):
+    for st in ast.walk(f.node):
+      if isinstance(st, ast.Assign):
+        tgts, vals = st.targets[0], st.value
+        pairs = list(zip(tgts.elts, vals.elts)) if isinstance(tgts, ast.Tuple) and isinstance(vals, ast.Tuple) \
+            and len(tgts.elts) == len(vals.elts) else [(tgts, vals)]
+        for t, v in pairs:
+          if isinstance(t, ast.Name) and is_member_expr(v):
+            members.add(t.id)
+      if isinstance(st, ast.For):
+        it = st.iter
+        if isinstance(it, ast.Call) and A.call_name(it) == 'zip' and all(isinstance(a, ast.Name) and a.id in prm for a in it.args):
+          members |= set(A.assigned_names(st.target))
+  bad = []
+  for n in ast.walk(f.node):
+    if isinstance(n, ast.Compare) and len(n.ops) == 1 and isinstance(n.ops[0], (ast.Eq, ast.NotEq)):
+      if is_member_expr(n.left) or is_member_expr(n.comparators[0]):
+        bad.append(f'line {n.lineno}: `{A.unparse(n, 60)}`')
+  uses_eq = any(A.call_name(c) in ('eq', 'ne') for c in A.calls_in(f.node))
+  ctx.ob('C06.h', f.fq + '#member-equality', uses_eq and not bad,
+         'lt decides "these members differ" with the symbolic eq, never with == / != on the member values',
+         f.loc, '; '.join(bad) + ': values that are eq but not == (objects without symbolic comparison, lambdas, '
+         'containers of them) end the walk early - neither lt, gt nor eq holds' if bad else 'lt no longer consults eq')
+
+
 def run(ctx):
   ctx.consult(*FILES)
+  rule_h(ctx)
   rule_a(ctx)
   rule_a2(ctx)
   rule_b(ctx)
